@@ -424,6 +424,8 @@ func runC09(r *ev.Run, thorough bool) int {
 		}
 	})
 	atomic.AddInt64(&distinct, int64(len(bigJobs)))
+	nRefrag := c09Refragment(r)
+	r.Add("refragmentations_checked", int64(nRefrag))
 	r.Add("fragment_calls", st.calls)
 	r.Add("returned_error", st.errs)
 	r.Add("fitting_cases", st.fits)
@@ -453,4 +455,79 @@ func replayC09(kind string, c json.RawMessage) (string, bool) {
 		return "held", false
 	}
 	return k + ": " + d, true
+}
+
+// c09Refragment: the bundle handed to Fragment is itself a fragment (the first one, at offset 0, and later ones).
+// Its sub-fragments are fragments of the ORIGINAL bundle: same total length, offsets that partition exactly the
+// range the fragment covered; together with the untouched first-level fragments they reassemble to the original.
+func c09Refragment(r *ev.Run) int {
+	n := 0
+	for _, pl := range []int{300, 1000} {
+		for _, pcrc := range []uint64{0, 2} {
+			sp := gen.Spec{Dst: "dtn://dst/x", Src: "dtn://src/app", Rpt: "dtn://src/app", PCRC: pcrc, PayCRC: 1, Time: DtnNow(), Lifetime: 3600000, PayLen: pl, PaySeed: 9,
+				Ext: []gen.BSpec{{Kind: "hop", N: []uint64{20, 3}, Flags: ref.BReplicate}, {Kind: "prev", S: []string{"dtn://prev/"}}}}
+			orig := sp.Build()
+			origEnc, _ := gen.Ser(&orig)
+			for _, mtu1 := range []int{len(origEnc)/2 + 20, len(origEnc) / 3} {
+				level1, err := orig.Fragment(mtu1)
+				if err != nil || len(level1) < 2 {
+					continue
+				}
+				for fi := range level1 {
+					fEnc, _ := gen.Ser(&level1[fi])
+					fPay := payloadOf(&level1[fi])
+					fOff := level1[fi].PrimaryBlock.FragmentOffset
+					for _, mtu2 := range []int{len(fEnc) - 1, len(fEnc)*2/3 + 10} {
+						sub, serr := level1[fi].Fragment(mtu2)
+						if serr != nil {
+							continue
+						}
+						n++
+						c := map[string]interface{}{"payload": pl, "first_size_limit": mtu1, "refragmented_fragment": fi, "second_size_limit": mtu2}
+						pos := fOff
+						bad := ""
+						for si := range sub {
+							se, _ := gen.Ser(&sub[si])
+							p := sub[si].PrimaryBlock
+							switch {
+							case len(se) > mtu2:
+								bad = fmt.Sprintf("sub-fragment %d serialises to %d > %d", si, len(se), mtu2)
+							case p.TotalDataLength != uint64(pl):
+								bad = fmt.Sprintf("sub-fragment %d carries total length %d, the original payload has %d octets", si, p.TotalDataLength, pl)
+							case p.FragmentOffset != pos:
+								bad = fmt.Sprintf("sub-fragment %d starts at offset %d, expected %d (fragment covered [%d,%d))", si, p.FragmentOffset, pos, fOff, fOff+uint64(len(fPay)))
+							}
+							if bad != "" {
+								break
+							}
+							pos += uint64(len(payloadOf(&sub[si])))
+						}
+						if bad == "" && pos != fOff+uint64(len(fPay)) {
+							bad = fmt.Sprintf("sub-fragments cover [%d,%d), the fragment covered [%d,%d)", fOff, pos, fOff, fOff+uint64(len(fPay)))
+						}
+						if bad != "" {
+							r.Violation("C09/refragmented-fragment:not-fragments-of-the-original", "refragment", bad, c)
+							continue
+						}
+						var set []bpv7.Bundle
+						for k := range level1 {
+							if k != fi {
+								set = append(set, level1[k])
+							}
+						}
+						set = append(set, sub...)
+						rb, rerr := bpv7.ReassembleFragments(set)
+						if rerr != nil {
+							r.Violation("C09/refragmented-fragment:reassembly-failed", "refragment", rerr.Error(), c)
+							continue
+						}
+						if re, _ := gen.Ser(&rb); !bytes.Equal(re, origEnc) {
+							r.Violation("C09/refragmented-fragment:reassembly-differs", "refragment", "the sub-fragments together with the other first-level fragments do not reassemble to the original bytes", c)
+						}
+					}
+				}
+			}
+		}
+	}
+	return n
 }
